@@ -363,13 +363,13 @@ fn classify_g2(b: &[u8]) -> (&'static str, bool) {
 }
 
 // --- Ristretto255 decoding per RFC 9496 section 4.3.1 over num-bigint
-fn p25519() -> BigUint { (BigUint::one() << 255u32) - BigUint::from(19u32) }
+pub(crate) fn p25519() -> BigUint { (BigUint::one() << 255u32) - BigUint::from(19u32) }
 
-fn fneg(a: &BigUint, p: &BigUint) -> BigUint { (p - (a % p)) % p }
+pub(crate) fn fneg(a: &BigUint, p: &BigUint) -> BigUint { (p - (a % p)) % p }
 
-fn is_neg(a: &BigUint) -> bool { a.bit(0) }
+pub(crate) fn is_neg(a: &BigUint) -> bool { a.bit(0) }
 
-fn fabs(a: &BigUint, p: &BigUint) -> BigUint {
+pub(crate) fn fabs(a: &BigUint, p: &BigUint) -> BigUint {
     if is_neg(a) {
         fneg(a, p)
     } else {
@@ -378,7 +378,7 @@ fn fabs(a: &BigUint, p: &BigUint) -> BigUint {
 }
 
 /// (was_square, sqrt(u/v) or sqrt(i*u/v)), non-negative root
-fn sqrt_ratio_m1(u: &BigUint, v: &BigUint, p: &BigUint) -> (bool, BigUint) {
+pub(crate) fn sqrt_ratio_m1(u: &BigUint, v: &BigUint, p: &BigUint) -> (bool, BigUint) {
     let sqrt_m1 = BigUint::from(2u32).modpow(&((p - BigUint::one()) / BigUint::from(4u32)), p);
     let v3 = v * v % p * v % p;
     let v7 = &v3 * &v3 % p * v % p;
